@@ -179,7 +179,7 @@ package carddav
 //@ func carddav.(*backend).propFindAddressObject(b, ctx, propfind, ao) (resp, err)
 //@   trusted C11
 //@   requires R1: b != nil && propfind != nil && ao != nil
-//@   ensures P1: err == nil ==> resp != nil
+//@   ensures P1: err == nil ==> resp != nil && len(resp.Hrefs) == 1 && resp.Hrefs[0].Path == ao.Path
 //@   ensures P2: err != nil ==> okErr(err)
 //@ spec queryDenotes(q *AddressBookQuery, w *addressbookQuery) bool = string(q.FilterTest) == string(w.Filter.Test)
 //@   | && len(q.PropFilters) == len(w.Filter.Props) && (forall j :: 0 <= j && j < len(w.Filter.Props) ==> propRel(w.Filter.Props[j], q.PropFilters[j]))
@@ -229,3 +229,59 @@ package carddav
 //@   loop 1 invariant I1: sentCount == 0 && propCarries(addressbookQuery.Prop, query.DataRequest) && string(addressbookQuery.Filter.Test) == string(query.FilterTest) && addressbookQuery.Limit == nil
 //@   loop 1 invariant I2: len(addressbookQuery.Filter.Props) == #i && (cap(addressbookQuery.Filter.Props) == 0 || fresh(addressbookQuery.Filter.Props))
 //@   |   && (forall j :: 0 <= j && j < #i ==> propRel(addressbookQuery.Filter.Props[j], query.PropFilters[j]))
+
+//@ -- C09: addressbook-multiget: hrefs in order, data request carried
+//@ func carddav.(*Client).MultiGetAddressBook(c, ctx, path, multiGet) (aos, err)
+//@   requires R1: c != nil && c.ic != nil && multiGet != nil && sentCount == 0
+//@   ensures G1: sentCount == 1 && sentMethod == "REPORT" && sentPath == path
+//@   ensures G2: let w : dynPtr(sentBody, "*addressbookMultiget") in w != nil && propCarries(w.Prop, multiGet.DataRequest)
+//@   |   && (len(multiGet.Paths) == 0 ? (len(w.Hrefs) == 1 && w.Hrefs[0].Path == path)
+//@   |       : (len(w.Hrefs) == len(multiGet.Paths) && (forall j :: 0 <= j && j < len(multiGet.Paths) ==> w.Hrefs[j].Path == multiGet.Paths[j])))
+//@   loop 1 invariant I1: sentCount == 0 && propCarries(addressbookMultiget.Prop, multiGet.DataRequest) && len(addressbookMultiget.Hrefs) == len(multiGet.Paths) && fresh(addressbookMultiget.Hrefs)
+//@   |   && (forall j :: 0 <= j && j < #i ==> addressbookMultiget.Hrefs[j].Path == multiGet.Paths[j])
+
+//@ -- enumerated attribute values (RFC 6352 section 10.5): exactly the RFC's values are accepted
+//@ func carddav.(*filterTest).UnmarshalText(ft, b) (err)
+//@   requires R1: ft != nil
+//@   assigns HC_carddav_filterTest
+//@   ensures U1: err == nil <==> (string(b) == "anyof" || string(b) == "allof")
+//@   ensures U2: err == nil ==> string(*ft) == string(b)
+//@   ensures U3: err != nil ==> *ft == old(*ft) && httpCode(err) == -1
+//@ func carddav.(*matchType).UnmarshalText(mt, b) (err)
+//@   requires R1: mt != nil
+//@   assigns HC_carddav_matchType
+//@   ensures U1: err == nil <==> (string(b) == "equals" || string(b) == "contains" || string(b) == "starts-with" || string(b) == "ends-with")
+//@   ensures U2: err == nil ==> string(*mt) == string(b)
+//@   ensures U3: err != nil ==> *mt == old(*mt) && httpCode(err) == -1
+//@ func carddav.(*negateCondition).UnmarshalText(nc, b) (err)
+//@   requires R1: nc != nil
+//@   assigns HC_carddav_negateCondition
+//@   ensures U1: err == nil <==> (string(b) == "yes" || string(b) == "no")
+//@   ensures U2: err == nil ==> (bool(*nc) <==> string(b) == "yes")
+//@   ensures U3: err != nil ==> *nc == old(*nc) && httpCode(err) == -1
+//@ func carddav.(negateCondition).MarshalText(nc) (b, err)
+//@   ensures M1: err == nil && string(b) == (bool(nc) ? "yes" : "")
+//@ func carddav.verifNegateConditionRoundTrip(b) (r, err)
+//@   ensures RT: err == nil && r == b
+
+//@ -- C09 / C10: addressbook-multiget on the server: every href is answered exactly once, in request order, with
+//@ -- the object's response or the backend's own error status; the data request reaches the backend as decoded
+//@ func carddav.(*Handler).handleMultiget(h, ctx, w, multiget) (err)
+//@   requires R1: h != nil && h.Backend != nil && w != nil && wstatus(w) == 0 && multiget != nil
+//@   requires R2: gaoCalls == 0
+//@   ensures G1: gaoCalls > 0 ==> gaoReq != nil && (multiget.Prop == nil ? (*gaoReq).AllProp == false && len((*gaoReq).Props) == 0
+//@   |   : (decodedOk(multiget.Prop, "addressDataReq") ==> dataReqRel(*gaoReq, decoded(multiget.Prop, "addressDataReq"))))
+//@   ensures G2: err == nil ==> wstatus(w) == 207 && servedMS != nil && len(servedMS.Responses) == len(multiget.Hrefs)
+//@   ensures G3: err == nil ==> (forall j :: 0 <= j && j < len(multiget.Hrefs) ==> answersHref(servedMS.Responses[j], h.Backend, ctx, multiget.Hrefs[j].Path, gaoReq))
+//@   ensures G4: err != nil ==> okErr(err) || fromDecoder(err)
+//@   ensures G5: mutations == old(mutations)
+//@   loop 1 invariant I1a: mutations == old(mutations) && wstatus(w) == 0
+//@   loop 1 invariant I1b: (cap(resps) == 0 || fresh(resps)) && len(resps) == #i
+//@   loop 1 invariant I1c: gaoCalls >= 0 && (gaoCalls > 0 ==> gaoReq == &dataReq) && (#i > 0 ==> gaoCalls > 0)
+//@   loop 1 invariant I1d: multiget.Prop == nil ? dataReq.AllProp == false && len(dataReq.Props) == 0
+//@   |       : (decodedOk(multiget.Prop, "addressDataReq") ==> dataReqRel(dataReq, decoded(multiget.Prop, "addressDataReq")))
+//@   loop 1 invariant I2: forall j :: 0 <= j && j < #i ==> answersHref(resps[j], h.Backend, ctx, multiget.Hrefs[j].Path, &dataReq)
+//@ spec answersHref(r internal.Response, be Backend, ctx context.Context, path string, req *AddressDataRequest) bool = len(r.Hrefs) == 1
+//@   | && (gaoErr(be, ctx, path, req) != nil
+//@   |     ? (r.Hrefs[0].Path == path && r.Status != nil && r.Status.Code == errStatus(gaoErr(be, ctx, path, req)))
+//@   |     : r.Hrefs[0].Path == gaoResult(be, ctx, path, req).Path)
